@@ -2601,6 +2601,26 @@ def translate_lengths(src_dir: str) -> str:
                 for n in ast.walk(fn):
                     if isinstance(n, ast.Call) and isinstance(n.func, ast.Name) and n.func.id in ('setattr', 'delattr'):
                         raise Unsupported(f'Trench.{fn.name} uses {n.func.id}')
+        # zigzag is read as the opaque accumulator LZig: it must run to its end on every call (one `return`, the last statement) and keep
+        # nothing on the object between calls (no store through `self` other than `self._floor_length += ...`): a memoised hatching that
+        # skips the accumulation on a later call leaves the subset
+        zz = [fn for fn in cls[0].body if isinstance(fn, ast.FunctionDef) and fn.name == 'zigzag']
+        if len(zz) != 1:
+            raise Unsupported('Trench.zigzag not found')
+        rets = [n for n in ast.walk(zz[0]) if isinstance(n, ast.Return)]
+        if len(rets) != 1 or zz[0].body[-1] is not rets[0]:
+            raise Unsupported('Trench.zigzag returns before its end')
+        if zz[0].decorator_list:
+            raise Unsupported('Trench.zigzag is decorated')
+        for n in ast.walk(zz[0]):
+            if isinstance(n, (ast.Attribute, ast.Subscript)) and isinstance(n.ctx, (ast.Store, ast.Del)):
+                base = n
+                while isinstance(base, (ast.Attribute, ast.Subscript)):
+                    base = base.value
+                if isinstance(base, ast.Name) and base.id == 'self' and not (isinstance(n, ast.Attribute) and n.attr == '_floor_length'):
+                    raise Unsupported(f'Trench.zigzag stores through self: {dump(n)[:120]}')
+            if isinstance(n, (ast.Global, ast.Nonlocal)):
+                raise Unsupported('Trench.zigzag uses global / nonlocal')
         METHODS = {'toolpath': ('generator', [], 'unit')}
         CFG_ATTRS, STATE_ATTRS, ORACLES = {'block', 'num_insets'}, {}, {}
         CFG_TYPE, LOCAL_ELT, EXTRA_PARAMS, MONAD = 'tr_cfg Poly', {}, '{Poly : Type} (G : geom Poly) ', 'ML Poly'
